@@ -396,6 +396,8 @@ func BuildProject(po ProjectOpts) *Project {
 	case "omit_resolver_fields":
 		c.Bools["omit_resolver_fields"] = 1
 		c.Bools["omit_getters"] = 0
+	case "root_typed_field":
+		c.Bools["omit_root_models"] = 1
 	}
 	// general avoidance of the known-finding conjunctions (precise: only where the option that
 	// makes the class fail is set)
@@ -417,6 +419,9 @@ func BuildProject(po ProjectOpts) *Project {
 		}
 		if c.Bools["omit_resolver_fields"] == 1 && c.Bools["omit_getters"] != 1 {
 			o.Avoid["omit_resolver_fields"] = true
+		}
+		if c.Bools["omit_root_models"] == 1 {
+			o.Avoid["root_typed_field"] = true
 		}
 		if po.Inject == "enum_values_bind" || po.Inject == "enum_values_list" {
 			delete(o.Avoid, po.Inject) // the witness enum is bound by the autobind writer
